@@ -101,6 +101,11 @@ def one_case(rec, tap, rng, cid):
     method = METHODS[int(rng.integers(len(METHODS)))]
     kw = dict(model_key=mk, params_initial=p0, segment=seg, gcf_k=k,
               weight_cp=wcp, method=method)
+    if mk == "hertz_para" and rng.random() < .35:
+        # the default model need not be named: the explicit initial
+        # parameters are used all the same
+        kw.pop("model_key")
+        rec.event("fits of the default model without naming it")
     mode = rng.random()
     xs = xall[np.asarray(idnt["segment"]) == seg]
     if mode < .25:
